@@ -1,10 +1,9 @@
 package props
 
 import (
-	"strings"
-	"encoding/base64"
 	"bytes"
 	"context"
+	"encoding/base64"
 	"encoding/json"
 	"fmt"
 	dhttp "github.com/cloudwego/dynamicgo/http"
@@ -12,11 +11,13 @@ import (
 	stdhttp "net/http"
 	"sort"
 	"strconv"
+	"strings"
 	"unicode/utf8"
 
 	"github.com/cloudwego/dynamicgo/conv"
 	"github.com/cloudwego/dynamicgo/conv/j2t"
 	"github.com/cloudwego/dynamicgo/thrift"
+	"github.com/cloudwego/dynamicgo/thrift/annotation"
 	"github.com/cloudwego/dynamicgo/verifbridge"
 
 	"verifharness/gen"
@@ -81,6 +82,77 @@ func runC18(c *h.Ctx) {
 		}
 		cs.Res("j2t-prefilled", res)
 		cs.Cover("j2t_prefilled_cases")
+	})
+
+	// ---- (a00) agw.body_dynamic (a value mapping handled by a Go callback of the native converter, inline by the
+	// portable one): the raw JSON text of the member - whatever its kind, null included - is the string's bytes
+	var dynDesc *thrift.TypeDescriptor
+	c.Run("j2t-body-dynamic-join", c.N(800, 20000), func(cs *h.Case) {
+		if dynDesc == nil {
+			annotation.InitAGWAnnos()
+			svc, err := thrift.NewDescritorFromContent(context.Background(), "dyn.thrift", "namespace go verif\nstruct S { 1: string dyn (agw.body_dynamic=\"\"), 2: i32 n, 3: optional string dyn2 (agw.body_dynamic=\"\"), 4: string plain }\nservice Svc { S M(1: S req) }\n", nil, false)
+			if err != nil {
+				cs.Viol("flavour:parse-idl", "err", err)
+				return
+			}
+			dynDesc, _ = RootOf(svc, "M")
+		}
+		var val func(d int) string
+		val = func(d int) string {
+			switch k := cs.R.Intn(9); {
+			case k == 0:
+				return "null"
+			case k == 1:
+				return []string{"true", "false"}[cs.R.Intn(2)]
+			case k == 2:
+				return strconv.Itoa(cs.R.Intn(100000) - 50000)
+			case k == 3:
+				return []string{"1.5", "-0.25e3", "1E+2", "0"}[cs.R.Intn(4)]
+			case k == 4 || d > 2:
+				return []string{`"text"`, `""`, `"q\"uote"`, `"\u00e9\n"`, `"null"`}[cs.R.Intn(5)]
+			case k <= 6:
+				var xs []string
+				for i := cs.R.Intn(3); i > 0; i-- {
+					xs = append(xs, val(d+1))
+				}
+				return "[" + strings.Join(xs, ",") + "]"
+			default:
+				var xs []string
+				for i := cs.R.Intn(3); i > 0; i-- {
+					xs = append(xs, fmt.Sprintf(`"k%d":%s`, i, val(d+1)))
+				}
+				return "{" + strings.Join(xs, ",") + "}"
+			}
+		}
+		v1, v3 := val(0), val(0)
+		with3 := cs.R.Bool()
+		n := cs.R.Intn(1000)
+		doc := fmt.Sprintf(`{"dyn":%s,"n":%d`, v1, n)
+		if with3 {
+			doc += `,"dyn2":` + v3
+		}
+		doc += `,"plain":"p"}`
+		cs.Info("doc", doc)
+		cv := j2t.NewBinaryConv(conv.Options{EnableValueMapping: true})
+		out, err := cv.Do(context.Background(), dynDesc, []byte(doc))
+		res := fmt.Sprintf("err=%v", err != nil)
+		if err == nil {
+			res += " out=" + h.Sha(out)
+			want := tref.Struct(tref.Field{ID: 1, V: tref.Str(v1)}, tref.Field{ID: 2, V: tref.Int32(int32(n))})
+			if with3 {
+				want.Fs = append(want.Fs, tref.Field{ID: 3, V: tref.Str(v3)})
+			}
+			want.Fs = append(want.Fs, tref.Field{ID: 4, V: tref.Str("p")})
+			if got, derr := tref.Decode(out, tref.STRUCT); derr != nil || !tref.Equal(got, want) {
+				cs.Viol("flavour:j2t-body-dynamic:wrong-bytes", "out", out, "want", want.String())
+				return
+			}
+		} else {
+			cs.Viol("flavour:j2t-body-dynamic:error-on-conforming", "err", err)
+			return
+		}
+		cs.Res("j2t-body-dynamic", res)
+		cs.Cover("j2t_body_dynamic_cases")
 	})
 
 	// ---- (a') api.js_conv value mapping in every flavour (the inline native writer vs the Go fallback)
